@@ -59,3 +59,10 @@ CHECK = {
                     "long double (x87 80-bit) evaluation of the definitions is the reference",
                     "g++ 12 ASan+UBSan runtime; asserts live (no -DNDEBUG)"],
 }
+
+# additionally: a reduced workload under valgrind memcheck, for uninitialised-value
+# use and invalid accesses that the ASan build cannot see; oracle verdicts are not taken from this
+# flavour (valgrind emulates long double with 64 bits), only memcheck's own reports and aborts
+CHECK["thorough"]["flavours"] = list(CHECK.get("flavours", ["asan"])) + ["memcheck"]
+CHECK["quick"]["flavours"] = list(CHECK.get("flavours", ["asan"])) + ["memcheck"]
+CHECK["flavour_cases"] = {"memcheck": {"quick": 5000, "thorough": 80000}}
